@@ -785,6 +785,9 @@ pub fn run(ctx: &Ctx) {
     }
     ctx.note(&format!("CLI part finished after {:.1}s", ctx.start.elapsed().as_secs_f64()));
     run_families(ctx);
+    // recursion that only appears through a redefinition or after a successful use: refused, never a stack overflow
+    crate::c13::late_recursion_family(ctx, "c15");
+    ctx.require_class("c15/late-recursion-refused", 40);
     ctx.note(&format!("families finished after {:.1}s", ctx.start.elapsed().as_secs_f64()));
     if ctx.tier == Tier::Thorough {
         crate::fuzzrun::campaigns(ctx, &["pre", "data", "interp", "print"]);
